@@ -193,8 +193,8 @@ created beyond these four; as long as `k ≠ 0` some node has a pending frame (s
 is eventually delivered drives `k` to 0 after exactly 4 effective deliveries: the bound); and at `k = 0` the bus is
 quiescent, the library device (lower NAME) holds `a` and the foreign node has moved to `nx f0 ≠ a`.
 The mirror case (library with the higher NAME moves) is `C03_converges_two_nodes_lib_moves`. Not covered (still partial,
-`C03_converges_partial`): more than two nodes, several devices per instance, two library instances against each other,
-timers/polls interleaved with the contest. -/
+`C03_converges_partial`): more than two nodes, several devices per instance, timers/polls interleaved with the contest.
+Two library instances against each other: `C03_converges_two_nodes_lib_lib`. -/
 theorem C03_converges_two_nodes (b0 : Bus) (n0 : Nat) (f0 : Iso.Node) (nx : Iso.Node → Nat)
     (hlt : n0 < f0.name) (hn1 : f0.name < 2^64) (ha : f0.addr ≤ 251) (hnx : ∀ f, nx f < 256) (hne : nx f0 ≠ f0.addr)
     (hnext : b0.next = nx) (h0 : Two b0 n0 f0.addr f0 [(f0.name, f0.addr)] [(n0, f0.addr)]) (evs : List Nat) :
@@ -234,6 +234,30 @@ theorem C03_converges_two_nodes_lib_moves (b0 : Bus) (n0 : Nat) (f0 : Iso.Node) 
     exact phH_pending hp
   · subst hk
     obtain ⟨q, c0, c1, hc⟩ := phH_zero hp
+    exact ⟨q, c0, c1, nxt_ne _ _ ha, hc⟩
+
+/-- **C03_converges_two_nodes_lib_lib.** Two one-device library instances (open, well-formed, any timer states) with
+distinct NAMEs `n0 < n1` hold the same valid address `a` with their claims crossed (node 0 = the lower NAME; the other
+numbering is the same statement with the indices swapped). For every schedule of deliveries: `k` + deliveries that found a
+pending frame = 4 (the constant), no further frame is created, some frame is pending while `k ≠ 0`; at `k = 0` the bus is
+quiescent, the lower NAME is still at `a`, the other device (`d1`, the only device of `y0`) is at `nxt a d1.endSource`
+(next address, 251→0 wrap, 254 when `a` is its end-of-search address) and its change is latched (`ChgAt … 1`). -/
+theorem C03_converges_two_nodes_lib_lib (b0 : Bus) (n0 n1 a : Nat) (y0 : Inst) (d1 : Dev)
+    (hlt : n0 < n1) (ha : a ≤ 251) (hn : b0.n = 2) (hy0 : (b0.node 1).kind = .lib y0) (hd1 : y0.s.devs = [d1])
+    (h0 : Side b0 0 n0 a [(n1, a)]) (h1 : Side b0 1 n1 a [(n0, a)]) (evs : List Nat) :
+    ∃ k, k + eff b0 evs = 4 ∧ PhLL n0 n1 a y0 d1.endSource k (run b0 (evs.map Ev.deliver)) ∧
+      (k ≠ 0 → ∃ i, i < (run b0 (evs.map Ev.deliver)).n ∧ ((run b0 (evs.map Ev.deliver)).node i).inbox ≠ []) ∧
+      (k = 0 → quiescent (run b0 (evs.map Ev.deliver)) ∧
+        claimants ((run b0 (evs.map Ev.deliver)).node 0).kind = [(n0, a)] ∧
+        claimants ((run b0 (evs.map Ev.deliver)).node 1).kind = [(n1, nxt a d1.endSource)] ∧
+        nxt a d1.endSource ≠ a ∧ ChgAt (run b0 (evs.map Ev.deliver)) 1) := by
+  obtain ⟨k, hp, he⟩ := converge_run (PhLL n0 n1 a y0 d1.endSource)
+    (fun k b i h => phLL_step n0 n1 a y0 d1 hlt ha hd1 k b h i) evs 4 b0 ⟨hn, h0, h1, hy0⟩
+  refine ⟨k, he, hp, fun hk => ?_, fun hk => ?_⟩
+  · obtain ⟨k', rfl⟩ : ∃ k', k = k' + 1 := ⟨k - 1, by omega⟩
+    exact phLL_pending hp
+  · subst hk
+    obtain ⟨q, c0, c1, hc⟩ := phLL_zero hp
     exact ⟨q, c0, c1, nxt_ne _ _ ha, hc⟩
 
 /-! ## the receive slots in front of the claim handler; a device without an address stays silent -/
@@ -423,6 +447,18 @@ example : Two demoTwoH 0x300 demoFlow.addr demoFlow [(demoFlow.name, demoFlow.ad
     nxt demoFlow.addr (mkDev .t32 251 0x300).endSource = 0 := by
   refine ⟨⟨rfl, ⟨demoX, rfl, libOK_of_fields _ _ (demoLib_ok 251 0x300 (by omega) (by omega)) rfl rfl rfl rfl rfl rfl rfl, rfl, rfl⟩,
     rfl, rfl, rfl, rfl, ?_, ?_⟩, by decide, rfl, rfl, by decide⟩
+  · intro c hc; simp at hc; subst hc; exact ⟨by decide, by decide⟩
+  · intro c hc; simp at hc; subst hc; exact ⟨by decide, by decide⟩
+
+/-- hypotheses of `C03_converges_two_nodes_lib_lib` are satisfiable: two instances (NAMEs 0x200 < 0x300) at 251, claims crossed -/
+def demoY : Inst := { mkInst .t32 4294967000 1 40 [(251, 0x200)] with
+  s := { (mkInst .t32 4294967000 1 40 [(251, 0x200)]).s with openState := 3 } }
+def demoLL : Bus :=
+  { n := 2, node := fun i => if i = 0 then ⟨.lib demoY, [frameOfClaim (0x300, 251)]⟩ else ⟨.lib demoX, [frameOfClaim (0x200, 251)]⟩ }
+example : Side demoLL 0 0x200 251 [(0x300, 251)] ∧ Side demoLL 1 0x300 251 [(0x200, 251)] ∧ (demoLL.node 1).kind = .lib demoX ∧
+    demoX.s.devs = [mkDev .t32 251 0x300] := by
+  refine ⟨⟨⟨demoY, rfl, libOK_of_fields _ _ (demoLib_ok 251 0x200 (by omega) (by omega)) rfl rfl rfl rfl rfl rfl rfl, rfl, rfl⟩, rfl, ?_⟩,
+    ⟨⟨demoX, rfl, libOK_of_fields _ _ (demoLib_ok 251 0x300 (by omega) (by omega)) rfl rfl rfl rfl rfl rfl rfl, rfl, rfl⟩, rfl, ?_⟩, rfl, rfl⟩
   · intro c hc; simp at hc; subst hc; exact ⟨by decide, by decide⟩
   · intro c hc; simp at hc; subst hc; exact ⟨by decide, by decide⟩
 
